@@ -113,22 +113,23 @@ type Kernel struct {
 	P     SchedParams
 	Stats Stats
 
-	mu        sync.Mutex // protects everything below; never held across a park
-	conns     []*Conn
-	listeners map[string]*Listener
-	stubs     map[string]StubFactory
-	udp       map[string]*UDPSock
-	lockReqs  []*lockReq
-	writeReqs []*writeReq
-	wake      chan struct{}
-	seenMutex map[interface{}]bool
-	frozen    map[interface{}]bool // mutexes of a crashed server incarnation: never granted again
-	Epoch     int
-	owners    map[interface{}]*lockReq
-	gnames    map[uint64]string
-	lockSeq   int
-	mapCalls  map[string]int
-	tasks     []*Task
+	mu           sync.Mutex // protects everything below; never held across a park
+	conns        []*Conn
+	listeners    map[string]*Listener
+	stubs        map[string]StubFactory
+	udpSt        *udpState
+	udpBusyPorts map[int]bool
+	lockReqs     []*lockReq
+	writeReqs    []*writeReq
+	wake         chan struct{}
+	seenMutex    map[interface{}]bool
+	frozen       map[interface{}]bool // mutexes of a crashed server incarnation: never granted again
+	Epoch        int
+	owners       map[interface{}]*lockReq
+	gnames       map[uint64]string
+	lockSeq      int
+	mapCalls     map[string]int
+	tasks        []*Task
 
 	step       int
 	startTime  time.Time
@@ -179,7 +180,6 @@ func newKernel(seed uint64, p SchedParams) *Kernel {
 		P:         p,
 		listeners: map[string]*Listener{},
 		stubs:     map[string]StubFactory{},
-		udp:       map[string]*UDPSock{},
 		owners:    map[interface{}]*lockReq{},
 		seenMutex: map[interface{}]bool{},
 		frozen:    map[interface{}]bool{},
@@ -347,7 +347,8 @@ func (k *Kernel) keysHook(site string, n int) []int {
 type writeReq struct {
 	dead bool
 	c    *Conn
-	dial string // non-empty: this is a pending outbound dial to that address, not a write
+	dial string   // non-empty: this is a pending outbound dial to that address, not a write
+	u    *UDPSock // non-nil: a datagram write on that socket
 	ch   chan struct{}
 	gid  uint64
 }
@@ -366,6 +367,16 @@ func (k *Kernel) parkDial(addr string) {
 // parkWrite parks the calling goroutine until the driver grants its write on c.
 func (k *Kernel) parkWrite(c *Conn) {
 	r := &writeReq{c: c, ch: make(chan struct{}), gid: goid()}
+	k.mu.Lock()
+	k.writeReqs = append(k.writeReqs, r)
+	k.mu.Unlock()
+	k.poke()
+	<-r.ch
+}
+
+// parkUDPWrite parks the calling goroutine until the driver grants its datagram write on s.
+func (k *Kernel) parkUDPWrite(s *UDPSock) {
+	r := &writeReq{u: s, ch: make(chan struct{}), gid: goid()}
 	k.mu.Lock()
 	k.writeReqs = append(k.writeReqs, r)
 	k.mu.Unlock()
@@ -404,6 +415,7 @@ func (k *Kernel) Crash() {
 	for _, c := range k.conns {
 		c.dead = true
 	}
+	k.crashUDP()
 	ls := k.listeners
 	k.listeners = map[string]*Listener{}
 	k.stubs = map[string]StubFactory{}
@@ -505,17 +517,30 @@ func (k *Kernel) enabledActions() []action {
 		if a.dial != "" {
 			return a.dial < b.dial
 		}
+		if (a.u != nil) != (b.u != nil) {
+			return a.u == nil
+		}
+		if a.u != nil {
+			return a.u.port < b.u.port
+		}
 		return a.c.id < b.c.id
 	})
 	for i, w := range k.writeReqs {
-		if w.dead || (w.c != nil && w.c.dead) {
+		if w.dead || (w.c != nil && w.c.dead) || (w.u != nil && w.u.dead) {
+			continue
+		}
+		if w.u != nil {
+			if i > 0 && k.writeReqs[i-1].u == w.u {
+				continue
+			}
+			acts = append(acts, action{kind: "write", wreq: w, key: "uwrite " + w.u.name})
 			continue
 		}
 		if w.dial != "" {
 			acts = append(acts, action{kind: "write", wreq: w, key: "dial " + w.dial})
 			continue
 		}
-		if i > 0 && k.writeReqs[i-1].c == w.c {
+		if i > 0 && k.writeReqs[i-1].c == w.c && k.writeReqs[i-1].u == nil && k.writeReqs[i-1].dial == "" {
 			continue // one pending write per connection is offered at a time (arrival order within a conn)
 		}
 		acts = append(acts, action{kind: "write", wreq: w, key: "write " + w.c.name})
@@ -889,6 +914,7 @@ func (k *Kernel) installSeams() {
 		select {} // park the caller forever; the driver reports at the next quiescent point
 	}
 	k.installFS()
+	k.installUDP()
 }
 
 func (k *Kernel) removeSeams() {
